@@ -1956,6 +1956,14 @@ static int64_t eval2(Node *node, char ***label) {
   case ND_LOGOR:
     return eval(node->lhs) || eval(node->rhs);
   case ND_CAST: {
+    // A conversion to _Bool yields 1 for every nonzero operand,
+    // including a floating one that would truncate to zero.
+    if (node->ty->kind == TY_BOOL) {
+      if (is_flonum(node->lhs->ty))
+        return eval_double(node->lhs) != 0;
+      return eval(node->lhs) != 0;
+    }
+
     int64_t val = eval2(node->lhs, label);
     if (is_integer(node->ty)) {
       switch (node->ty->size) {
